@@ -6,6 +6,7 @@ func init() {
 	register(&Property{
 		ID: "C11",
 		Explain: "Static structural necessary conditions of 'the storage engine behaves as a map': " +
+			"(insert-into-writable-head) Put and PutRaw insert into the last table only after makeTable ran or after its state was found to be ReadWriteState: a recycled table left last by a transfer is not registered for scans and is skipped by Export; " +
 			"(single-live-version) from every insert into the head table, each path to a success return of KVStore.Put/PutRaw passes a loop over tables[0..len-2] that retires the key (so at most one live version exists per store, and the retire step follows the insert that may roll over to a new table); " +
 			"(lookup-covers-all-tables, lookup-visits-every-table) Get/GetRaw/GetTTL/GetLastAccess/GetKey/Delete/UpdateTTL/Check/Stats/Range/RangeHKey loop over tables[0..len-1] and ask every table in every iteration; " +
 			"(index-insert-retires-old) every write of Table.hkeys[hkey] is dominated by Table.Delete(hkey) of the same key; " +
@@ -30,6 +31,7 @@ func init() {
 			c17Pack(r)
 			compactionShape(r)
 			kvPutGrowsStore(r)
+			kvInsertIntoWritableHead(r)
 			c12ResumeRestartsNextTable(r)
 			engineBuiltFromEffectiveConfig(r, "engine-built-from-effective-config")
 		},
